@@ -3,6 +3,7 @@ package harness
 import (
 	"context"
 	"encoding/json"
+	"errors"
 	"fmt"
 	"os"
 	"sort"
@@ -31,6 +32,7 @@ type pProbe struct {
 	Ins     []inSpec `json:"ins"`
 	Busy    int64    `json:"busy,omitempty"` // virtual ns spent in every reconcile
 	Late    bool     `json:"late,omitempty"` // registered after Run
+	Fail    bool     `json:"fail,omitempty"` // every reconcile fails (C16: must not affect the others)
 }
 
 type pWrite struct {
@@ -77,6 +79,7 @@ type pipeProbeR struct {
 	ins  []controller.Input
 	busy time.Duration
 	book *pBook
+	fail bool
 
 	mu sync.Mutex
 	rt controller.Runtime
@@ -113,6 +116,10 @@ func (p *pipeProbeR) Run(ctx context.Context, r controller.Runtime, _ *zap.Logge
 			case <-time.After(p.busy):
 			}
 		}
+
+		if p.fail {
+			return errors.New("probe fails")
+		}
 	}
 }
 
@@ -121,6 +128,7 @@ type pipeProbeQ struct {
 	ins  []controller.Input
 	busy time.Duration
 	book *pBook
+	fail bool
 }
 
 func (p *pipeProbeQ) Name() string { return p.name }
@@ -137,6 +145,10 @@ func (p *pipeProbeQ) Reconcile(ctx context.Context, _ *zap.Logger, _ controller.
 		case <-ctx.Done():
 		case <-time.After(p.busy):
 		}
+	}
+
+	if p.fail {
+		return errors.New("probe fails")
 	}
 
 	return nil
@@ -226,14 +238,14 @@ func runPipeScenario(t *testing.T, sc pScenario, table bool) (res pResult) {
 			}
 
 			if p.Flavour == "r" {
-				pr := &pipeProbeR{name: p.Name, ins: ins, busy: time.Duration(p.Busy), book: book}
+				pr := &pipeProbeR{name: p.Name, ins: ins, busy: time.Duration(p.Busy), book: book, fail: p.Fail}
 				rprobes[p.Name] = pr
 
 				if err := rt.RegisterController(pr); err != nil {
 					t.Fatalf("register %s: %v", p.Name, err)
 				}
 			} else {
-				if err := rt.RegisterQController(&pipeProbeQ{name: p.Name, ins: ins, busy: time.Duration(p.Busy), book: book}); err != nil {
+				if err := rt.RegisterQController(&pipeProbeQ{name: p.Name, ins: ins, busy: time.Duration(p.Busy), book: book, fail: p.Fail}); err != nil {
 					t.Fatalf("register %s: %v", p.Name, err)
 				}
 			}
